@@ -101,10 +101,14 @@ func ZZAPI(props, script, varspec string) {
 		zzvrt.Reach("skipped-undefined-by-text")
 		return
 	}
-	// stated bound: overdraft limits are non-negative
+	// stated bound for C01 only (its floor is "minus the largest grant"): overdraft limits are
+	// non-negative; the other properties take limits of any sign (a negative limit lowers what
+	// the account can give, as balance + limit)
 	zero := big.NewInt(0)
-	for _, lim := range e.granted {
-		zzvrt.Assume(zzvrt.Le(zero, lim))
+	if zzWant(props, "C01") {
+		for _, lim := range e.granted {
+			zzvrt.Assume(zzvrt.Le(zero, lim))
+		}
 	}
 
 	// "_store=<kind>": the same truth table served by a store that answers in another
